@@ -110,6 +110,7 @@ def _check(ctx, case):
         warnings.simplefilter('ignore')
         an = _build(case, step, log)
         totals = []
+        steps_by_run = []
         tot = 0
         for ri, run in enumerate(case['runs']):
             if ri > 0 and case.get('bad_run_between'):
@@ -123,8 +124,12 @@ def _check(ctx, case):
                     raise Violation('%s: run() on traces of another length was accepted' % kind, case)
                 if an.processed_traces != tot:
                     raise Violation('%s: processed_traces = %s after a refused run, %d traces were accepted so far' % (kind, an.processed_traces, tot), case)
+            if ri > 0 and (case.get('step_changes') or [0] * (ri + 1))[ri]:
+                # the documented attribute is changed on the object between two runs: the new spacing applies from then on
+                an.convergence_step = int(case['step_changes'][ri])
+            steps_by_run.append(int(an.convergence_step))
             cont = scared.Container(dist.ram_ths(samples=run['samples'], plaintext=run['plaintext']))
-            must(case, '%s attack run() #%d with convergence_step=%d' % (kind, ri + 1, step), an.run, cont)
+            must(case, '%s attack run() #%d with convergence_step=%d' % (kind, ri + 1, steps_by_run[-1]), an.run, cont)
             tot += run['samples'].shape[0]
             totals.append(tot)
             # the attributes are read after every run (reading must neither be stale nor disturb the next run)
@@ -161,12 +166,13 @@ def _check(ctx, case):
     ends = set(totals)
     last_regular = 0
     for p in P:
-        if p - last_regular >= step:
+        step_p = steps_by_run[min(i for i, t in enumerate(totals) if t >= p)]        # the step in force during the run that reached p
+        if p - last_regular >= step_p:
             last_regular = p
         elif p not in ends:
-            raise Violation('%s: convergence point %d comes %d traces after the previous regular point %d, less than the step %d, and is not the end of a run (points %s, run totals %s)' % (
-                kind, p, p - last_regular, last_regular, step, P, totals), case)
-    ctx.note_max('largest_gap_over_step', max((b - a) / step for a, b in zip([0] + P, P)))
+            raise Violation('%s: convergence point %d comes %d traces after the previous regular point %d, less than the step %d, and is not the end of a run (points %s, run totals %s, steps %s)' % (
+                kind, p, p - last_regular, last_regular, step_p, P, totals, steps_by_run), case)
+    ctx.note_max('largest_gap_over_step', max((b - a) / max(steps_by_run) for a, b in zip([0] + P, P)))
     for j, p in enumerate(P):
         if not np.array_equal(np.asarray(conv[..., j], dtype='float64'), np.asarray(first_scores[j], dtype='float64'), equal_nan=True):
             raise Violation('%s: convergence column %d is not the scores computed when %d traces had been processed' % (kind, j, p), case)
@@ -192,7 +198,7 @@ def _check(ctx, case):
             if not _same(an.results, fresh.results, exact, rtol) or not _same(an.scores, fresh.scores, exact, rtol):
                 raise Violation('%s: final results/scores with convergence_step=%d differ from those of the same attack without convergence step' % (kind, step), case)
         ctx.count('prefix_attacks_compared')
-    labels = (['refused_run_between_runs'] if case.get('bad_run_between') else []) + ['kind:' + kind, 'prec:' + case['precision'], 'regime:' + case['regime'], 'runs:%d' % len(case['runs']), 'columns:%s' % (len(P) if len(P) < 5 else '5+'),
+    labels = (['refused_run_between_runs'] if case.get('bad_run_between') else []) + (['step_changed_between_runs'] if len(set(steps_by_run)) > 1 else []) + (['more_than_128_columns'] if len(P) > 128 else []) + ['kind:' + kind, 'prec:' + case['precision'], 'regime:' + case['regime'], 'runs:%d' % len(case['runs']), 'columns:%s' % (len(P) if len(P) < 5 else '5+'),
               'step_vs_batch:' + ('<' if step < case['batch_size'] else '=' if step == case['batch_size'] else '>'), 'step_divides_total' if tot % step == 0 else 'step_does_not_divide_total']
     if step > tot:
         labels.append('step>total')
@@ -218,10 +224,21 @@ def cases(draw, kind, precision):
         style = draw(st.sampled_from(['multiple', 'multiple+1', 'less', 'any', 'any']))
         N = {'multiple': bs * draw(st.integers(1, 3)), 'multiple+1': bs * draw(st.integers(1, 3)) + 1, 'less': max(1, bs - 1)}.get(style) or draw(st.integers(1, 60))
         sizes.append(max(1, min(N, tot_max)))
+    many = draw(st.integers(0, 11)) == 0
+    if many:
+        # many convergence points (more than 128 columns): small step, two or three long runs
+        nruns = draw(st.sampled_from([2, 3]))
+        sizes = [draw(st.integers(66, 80)) for _ in range(nruns)]
     total = sum(sizes)
     sk = draw(st.sampled_from(['one', 'below', 'equal', 'above', 'beyond', 'odd', 'any']))
     step = {'one': 1, 'below': max(1, bs - draw(st.integers(1, 3))), 'equal': bs, 'above': bs + draw(st.integers(1, 9)), 'beyond': total + draw(st.integers(1, 5)),
             'odd': draw(st.sampled_from([3, 7, 11, 13]))}.get(sk) or draw(st.integers(1, 45))
+    if many:
+        step = draw(st.sampled_from([1, 1, 2]))
+    step_changes = [0] * nruns
+    if nruns > 1 and not many and draw(st.integers(0, 3)) == 0:
+        for r_ in range(1, nruns):
+            step_changes[r_] = draw(st.sampled_from([0, step + draw(st.integers(1, 30)), max(1, step - draw(st.integers(1, 5))), step * 3]))
     B = min(_bound(total, precision), 200)
     tdt = draw(st.sampled_from(['uint8', 'int16', 'float32', 'float64']))
     for N in sizes:
@@ -237,7 +254,7 @@ def cases(draw, kind, precision):
     model = 'mono%d' % draw(st.integers(0, 2)) if kind == 'dpa' else 'value' if kind == 'tdpa' else draw(st.sampled_from(['value', 'hw']))
     mask = draw(st.sampled_from([0x07, 0x03]))
     bad_between = nruns > 1 and kind != 'tdpa' and draw(st.integers(0, 2)) == 0
-    case = {'kind': 'convergence', 'bad_run_between': bad_between, 'dist': kind, 'precision': precision, 'regime': regime, 'batch_size': bs, 'step': step, 'runs': runs, 'model': model, 'mask': mask,
+    case = {'kind': 'convergence', 'step_changes': step_changes, 'bad_run_between': bad_between, 'dist': kind, 'precision': precision, 'regime': regime, 'batch_size': bs, 'step': step, 'runs': runs, 'model': model, 'mask': mask,
             'words': None if kind != 'tdpa' else 0, 'guesses': list(range(draw(st.integers(2, 4)))), 'discriminant': draw(st.sampled_from(['maxabs', 'nanmax', 'abssum']))}
     vmax = mask if model == 'value' else bin(mask).count('1')
     if kind in ('anova', 'nicv', 'snr', 'mia', 'tdpa'):
